@@ -5,9 +5,7 @@ import os
 # which repairs the implementation under test has: `impl_fixes` (Run/Eval_C19.v) for /repo; C19_FIXES=all_fixes to run the
 # check against a worktree with every fixes/C19-F*.diff applied
 _FX = os.environ.get("C19_FIXES", "impl_fixes")
-# the drivers may hand certificate pools with cyclic issuers to the real code in-process only if C19-F6 is repaired there
-FX6_APPLIED = False
-_ENV = {"C19_FX6": "1"} if (FX6_APPLIED or _FX == "all_fixes") else {}
+_ENV = {}
 
 _GEN = {"internal/zzverif/c19gen/gen.go": "c19/gen/gen.go", "internal/zzverif/c19gen/reload.go": "c19/gen/reload.go"}
 
@@ -26,23 +24,19 @@ P = {
     "claimed": True,
     "coq_targets": ["Properties/C19.vo", "Run/Eval_C19.vo"],
     "theorems_module": "Properties.C19",
-    "theorems": ["C19_reload_total", "C19_reload_exit_iff_guards", "C19_ruleset_total", "C19_ruleset_total_guarded",
-                 "C19_fs_total", "C19_fs_exit_iff_guard", "C19_truststore_panic_iff", "C19_request_panic_is_non_success",
-                 "C19_composite_extract_panic_iff", "C19_F3_only_ill_typed",
-                 "C19_F1_refuted", "C19_F2_refuted", "C19_F3_refuted", "C19_F4_refuted", "C19_F5_refuted",
-                 "C19_F6_refuted", "C19_F7_refuted", "C19_F8_refuted", "C19_reload_nonvacuous"],
+    "theorems": ["C19_reload_total", "C19_reload_total_any_fixed", "C19_reload_total_guarded", "C19_reload_exit_iff_guards",
+                 "C19_find_chain_terminates", "C19_truststore_total", "C19_truststore_panic_iff",
+                 "C19_ruleset_total", "C19_ruleset_total_typed", "C19_ruleset_total_guarded", "C19_F3_only_ill_typed",
+                 "C19_fs_total", "C19_fs_total_guarded", "C19_fs_exit_iff_guard",
+                 "C19_request_panic_is_non_success", "C19_composite_extract_panic_iff",
+                 "C19_F1_pinned_refuted", "C19_F2_pinned_refuted", "C19_F3_pinned_refuted", "C19_F4_pinned_refuted",
+                 "C19_F5_pinned_refuted", "C19_F6_pinned_refuted", "C19_F7_pinned_refuted", "C19_F8_pinned_refuted",
+                 "C19_reload_nonvacuous"],
     "streams": [{
-        "name": "keystore", "pkg": "./internal/zzverif/c19gen", "test": "TestVerifC19KS", "overlay": _KS,
-        "eval_module": "Run.Eval_C19", "check_term": "check_ks " + _FX,
-        "n_quick": 250, "n_thorough": 8000, "findings": _KF, "env": _ENV,
-    }, {
-        "name": "truststore", "pkg": "./internal/zzverif/c19gen", "test": "TestVerifC19TS", "overlay": _KS,
-        "eval_module": "Run.Eval_C19", "check_term": "check_ts " + _FX,
-        "n_quick": 150, "n_thorough": 4000, "findings": _KF, "env": _ENV,
-    }, {
-        "name": "request", "pkg": "./internal/zzverif/c19gen", "test": "TestVerifC19Req", "overlay": _KS,
-        "eval_module": "Run.Eval_C19", "check_term": "check_req " + _FX,
-        "n_quick": 60, "n_thorough": 1000, "findings": _KF, "env": _ENV,
+        # key store, trust store and request streams (no in-package access needed) share one driver binary
+        "name": "misc", "pkg": "./internal/zzverif/c19gen", "test": "TestVerifC19Misc", "overlay": _KS,
+        "eval_module": "Run.Eval_C19", "check_term": "check_misc " + _FX,
+        "n_quick": 460, "n_thorough": 14000, "findings": _KF, "env": _ENV,
     }, {
         "name": "signer", "pkg": "./internal/rules/mechanisms/finalizers", "test": "TestVerifC19Signer",
         "overlay": _ov({"internal/rules/mechanisms/finalizers/zz_verif_c19_test.go": "c19/signer_test.go"}),
@@ -62,7 +56,7 @@ P = {
         "name": "rules", "pkg": "./internal/rules", "test": "TestVerifC19Rules",
         "overlay": _ov({"internal/rules/zz_verif_c19_test.go": "c19/rules_test.go"}),
         "eval_module": "Run.Eval_C19", "check_term": "check_rules " + _FX,
-        "n_quick": 300, "n_thorough": 10000, "findings": _KF, "env": _ENV, "shard": 150,
+        "n_quick": 200, "n_thorough": 10000, "findings": _KF, "env": _ENV, "shard": 100,
     }, {
         "name": "fs", "pkg": "./internal/rules/provider/filesystem", "test": "TestVerifC19FS",
         "overlay": _ov({"internal/rules/provider/filesystem/zz_verif_c19_test.go": "c19/fs_test.go"}),
